@@ -20,10 +20,14 @@ What ties the heap model to the Go code: the `wv_c06` driver runs it for every o
 every helper line and prints the provenance of each result pointer (`f` new, `x0 x1 y0 y1` operand,
 `one minusOne mask<n>` package-level, `-` nil); the harness prints the same from real pointer
 comparisons, and the driver refuses (`heap-model-diverges`) if the heap model's values ever differ
-from the value model's.  Proof machinery: `Proof/IntervalHeap.lean`.
+from the value model's — which `heap_refines_value_model` below proves cannot happen (the heap
+model computes exactly the value model's results, for all ten operators, without panic).
+Proof machinery: `Proof/IntervalHeap.lean`, `Proof/IntervalHeapRefine.lean`,
+`Proof/IntervalHeapRefineBits.lean`.
 -/
-import WuffsVerif.Proof.IntervalHeapRefine
+import WuffsVerif.Proof.IntervalHeapRefineBits
 import WuffsVerif.Props.C06
+import WuffsVerif.Props.C06Bits
 
 namespace WuffsVerif.Props.C06
 open WuffsVerif.Interval WuffsVerif.IntervalHeap
@@ -125,16 +129,14 @@ theorem inPlaceUnite_fresh (n : Nat) (z w : HIR) (hz : FreshR n z) :
 
 /-! ## the heap model computes the values of the value model -/
 
-/-- REFINEMENT (partial: proved for the eight operators that never write to an existing object —
-add, sub, mul, quo, lsh, rsh, unite, intersect; for `And` / `Or`, whose helpers update new objects
-in place, the same agreement is checked by the driver on every harness line, not proved).
-On any heap in which the operand pointers are valid and the package-level objects hold their
-values, the operator returns without panic, keeps every existing cell (`Ext`), returns valid
-pointers, and the values behind them are exactly the value model's result (`none` = the same
-failure).  Hence every theorem of `Props/C06.lean` about `add … tryRsh` is a theorem about what
-the pointer-level code returns. -/
-theorem heap_refines_value_model_partial (op : Op) (hop : op ≠ .and ∧ op ≠ .or) (h : Heap)
-    (g : GlobalsOK h) (x y : HIR) (vx : VR h x) (vy : VR h y) :
+/-- REFINEMENT, all ten operators.  On any heap in which the operand pointers are valid and the
+package-level objects (`one`, `minusOne`, `smallBitMasks[..]`) hold their values, the operator
+returns without panic, keeps every cell that existed (`Ext`), returns valid pointers, and the
+values behind them are exactly the value model's result (`none` = the same failure).
+Hence every theorem of `Props/C06.lean` and `Props/C06Bits.lean` (soundness, exact failure,
+tightness, And/Or never panic) is a theorem about what the pointer-level code returns. -/
+theorem heap_refines_value_model (op : Op) (h : Heap) (g : GlobalsOK h) (mk : MasksOK h)
+    (x y : HIR) (vx : VR h x) (vy : VR h y) :
     ∃ r h', runOp op x y h = some (r, h') ∧ Ext h h' ∧ (∀ z, r = some z → VR h' z) ∧
       pureOp op (viewAt h x) (viewAt h y) = some (r.map (viewAt h')) := by
   have wrap : ∀ {m : HM (Option HIR)} {v : Option IR}, Tot m h (OkIs v) →
@@ -149,8 +151,16 @@ theorem heap_refines_value_model_partial (op : Op) (hop : op ≠ .and ∧ op ≠
   | quo => exact wrap (tryQuo_tot g vx vy)
   | lsh => exact wrap (tryLsh_tot g vx vy)
   | rsh => exact wrap (tryRsh_tot g vx vy)
-  | and => exact absurd rfl hop.1
-  | or => exact absurd rfl hop.2
+  | and =>
+    obtain ⟨Z, hZ⟩ := and_total (viewAt h x) (viewAt h y)
+    have := wrap (okRange_tot (and_tot g mk vx vy hZ))
+    simp only [pureOp, hZ, Option.map_some]
+    exact this
+  | or =>
+    obtain ⟨Z, hZ⟩ := or_total (viewAt h x) (viewAt h y)
+    have := wrap (okRange_tot (or_tot g mk vx vy hZ))
+    simp only [pureOp, hZ, Option.map_some]
+    exact this
   | unite => exact wrap (okRange_tot (unite_tot h x y vx vy))
   | intersect => exact wrap (okRange_tot (intersect_tot h x y))
 
@@ -158,26 +168,27 @@ theorem heap_refines_value_model_partial (op : Op) (hop : op ≠ .and ∧ op ≠
 objects, which is what the driver does for every harness line) satisfies the hypotheses of the
 refinement theorem, and the operand pointers hold `X` and `Y` -/
 theorem setup_satisfies_hypotheses (X Y : IR) :
-    GlobalsOK (setup X Y).2.2 ∧ VR (setup X Y).2.2 (setup X Y).1 ∧
-    VR (setup X Y).2.2 (setup X Y).2.1 ∧
-    viewAt (setup X Y).2.2 (setup X Y).1 = X ∧ viewAt (setup X Y).2.2 (setup X Y).2.1 = Y :=
-  setup_spec X Y
+    (GlobalsOK (setup X Y).2.2 ∧ VR (setup X Y).2.2 (setup X Y).1 ∧
+      VR (setup X Y).2.2 (setup X Y).2.1 ∧
+      viewAt (setup X Y).2.2 (setup X Y).1 = X ∧ viewAt (setup X Y).2.2 (setup X Y).2.1 = Y) ∧
+    MasksOK (setup X Y).2.2 :=
+  ⟨setup_spec X Y, setup_masks X Y⟩
 
 /-- `TryQuo` never divides by zero: in the heap model `bigIntQuo` PANICS on a zero divisor
 (`combineQuo`), and yet `TryQuo` returns on every heap — the divisors it hands to `bigIntQuo` are
 bounds of the negative / positive parts of `y`, used only when those parts exist. -/
 theorem quo_never_divides_by_zero (h : Heap) (g : GlobalsOK h) (x y : HIR) (vx : VR h x)
     (vy : VR h y) : ∃ r h', IntervalHeap.tryQuo x y h = some (r, h') := by
-  obtain ⟨r, h', e, _⟩ :=
-    heap_refines_value_model_partial .quo ⟨by decide, by decide⟩ h g x y vx vy
+  obtain ⟨r, h', e, _⟩ := tryQuo_tot g vx vy
   exact ⟨r, h', e⟩
 
 /-- transfer, an instance: what `Mul` returns at pointer level contains every product -/
-theorem heap_mul_sound (h : Heap) (g : GlobalsOK h) (x y : HIR) (vx : VR h x) (vy : VR h y)
+theorem heap_mul_sound (h : Heap) (g : GlobalsOK h) (mk : MasksOK h) (x y : HIR) (vx : VR h x)
+    (vy : VR h y)
     (a b : Int) (ha : (viewAt h x).mem a) (hb : (viewAt h y).mem b) :
     ∃ z h', runOp .mul x y h = some (some z, h') ∧ (viewAt h' z).mem (a * b) := by
   obtain ⟨r, h', e, _, _, ev⟩ :=
-    heap_refines_value_model_partial .mul ⟨by decide, by decide⟩ h g x y vx vy
+    heap_refines_value_model .mul h g mk x y vx vy
   simp only [pureOp, Option.some.injEq] at ev
   cases r with
   | none => cases ev
@@ -187,19 +198,34 @@ theorem heap_mul_sound (h : Heap) (g : GlobalsOK h) (x y : HIR) (vx : VR h x) (v
 
 /-- transfer, an instance with failure: `TryQuo` at pointer level fails exactly when the divisor
 range contains zero (both operands non-empty), and otherwise contains every truncated quotient -/
-theorem heap_quo_sound (h : Heap) (g : GlobalsOK h) (x y : HIR) (vx : VR h x) (vy : VR h y) :
+theorem heap_quo_sound (h : Heap) (g : GlobalsOK h) (mk : MasksOK h) (x y : HIR) (vx : VR h x)
+    (vy : VR h y) :
     ∃ r h', runOp .quo x y h = some (r, h') ∧
       (r = none ↔ (viewAt h x).empty = false ∧ (viewAt h y).empty = false ∧ (viewAt h y).mem 0) ∧
       ∀ z, r = some z → ∀ a b, (viewAt h x).mem a → (viewAt h y).mem b →
         b ≠ 0 ∧ (viewAt h' z).mem (Int.tdiv a b) := by
   obtain ⟨r, h', e, _, _, ev⟩ :=
-    heap_refines_value_model_partial .quo ⟨by decide, by decide⟩ h g x y vx vy
+    heap_refines_value_model .quo h g mk x y vx vy
   simp only [pureOp, Option.some.injEq] at ev
   refine ⟨r, h', e, ?_, ?_⟩
   · rw [← quo_fails_iff, ev]
     cases r <;> simp
   · rintro z rfl a b ha hb
     exact quo_sound _ _ _ a b ha hb (by rw [ev]; rfl)
+
+/-- transfer, the bit operators: `And` at pointer level never panics and its result contains
+`a & b` for all members -/
+theorem heap_and_sound (h : Heap) (g : GlobalsOK h) (mk : MasksOK h) (x y : HIR) (vx : VR h x)
+    (vy : VR h y) (a b : Int) (ha : (viewAt h x).mem a) (hb : (viewAt h y).mem b) :
+    ∃ z h', runOp .and x y h = some (some z, h') ∧ (viewAt h' z).mem (iand a b) := by
+  obtain ⟨r, h', e, _, _, ev⟩ := heap_refines_value_model .and h g mk x y vx vy
+  obtain ⟨Z, hZ⟩ := and_total (viewAt h x) (viewAt h y)
+  simp only [pureOp, hZ, Option.map_some, Option.some.injEq] at ev
+  cases r with
+  | none => cases ev
+  | some z =>
+    simp only [Option.map_some, Option.some.injEq] at ev
+    exact ⟨z, h', e, ev ▸ and_sound _ _ Z a b ha hb hZ⟩
 
 /-! non-vacuity: the operators do run (return `some`) on concrete heaps, with operands placed on
 top of the package-level objects by `setup`; the last example shows what the theorem excludes —
